@@ -11,41 +11,6 @@ pub proof fn axiom_slice_len<T>(b: &[T])
 pub assume_specification<T> [core::mem::replace::<T>] (dest: &mut T, src: T) -> (r: T)
     ensures r == *old(dest), *final(dest) == src;
 
-pub mod io {
-    use vstd::prelude::*;
-
-    #[verifier::external_type_specification]
-    #[verifier::external_body]
-    pub struct ExIoError(std::io::Error);
-
-    pub type Result<T> = std::io::Result<T>;
-
-    /// Model of `std::io::Cursor<T>` (only what `util::Writer` uses).  The
-    /// struct is a *model*: position and the wrapped value, nothing else.
-    pub struct Cursor<T> {
-        pub inner: T,
-        pub pos: u64,
-    }
-
-    impl<T> Cursor<T> {
-        pub fn new(inner: T) -> (r: Cursor<T>)
-            ensures r.inner == inner, r.pos == 0
-        { Cursor { inner, pos: 0 } }
-
-        pub fn position(&self) -> (r: u64)
-            ensures r == self.pos
-        { self.pos }
-
-        pub fn set_position(&mut self, p: u64)
-            ensures final(self).pos == p, final(self).inner == old(self).inner
-        { self.pos = p; }
-
-        pub fn get_ref(&self) -> (r: &T)
-            ensures *r == self.inner
-        { &self.inner }
-    }
-}
-
 // ---- core::str / number parsing, assumed contracts over uninterpreted bytes ----
 
 #[verifier::external_type_specification]
